@@ -62,7 +62,7 @@ def initCurrentFrame : M Unit := do
     { s with
       curFrame := 0
       frames := s.frames.modify 0 fun f =>
-        { f with fn := some s.mainFn, free := (if free.isSome then free else f.free), handlers := none, bp := 0, discard := false } }
+        { f with fn := some s.mainFn, free := free, handlers := none, bp := 0, discard := false } }
 
 def prologue (globals : V) (args : List V) : M Unit := do
   modS fun s => { s with err := none, abort := false }
